@@ -452,7 +452,8 @@ REG.note('C15', 'not_built', 'NewSessionTicket / NewSessionTicket1_0 / Encrypted
 # reads the msg_type byte before dispatching to K.parse).
 # ===========================================================================
 
-def _roundtrip(name, mk_x, mk_y, cls_name, start, same_fields, wf=None, doc='', write_name=None, wf_y=None):
+def _roundtrip(name, mk_x, mk_y, cls_name, start, same_fields, wf=None, doc='', write_name=None, wf_y=None,
+               consumes=True):
     @scenario('roundtrip-' + name, PROP, doc=doc or '%s.parse(Parser(%s.write(x))) == x, everything consumed, and '
               'write(parse(write(x))) == write(x)' % (cls_name, cls_name))
     def body(api):
@@ -470,7 +471,8 @@ def _roundtrip(name, mk_x, mk_y, cls_name, start, same_fields, wf=None, doc='', 
             for o2 in _normal(api, api.call(M + cls_name + '.parse', [y, p], st, inline=False), 'parse'):
                 ns = api.ns(o2.st)
                 api.oblige(o2.st, 'fields-back', same_fields(ns, x, y))
-                api.oblige(o2.st, 'consumed-exactly', ns.f(p, 'index') == S.len_(wire))
+                if consumes:
+                    api.oblige(o2.st, 'consumed-exactly', ns.f(p, 'index') == S.len_(wire))
                 for o3 in _normal(api, _call(api, wq, write_name, [y], o2.st), 'rewrite'):
                     api.oblige(o3.st, 'rewrite-identical', S.seq_eq(o3.val, wire))
     return body
@@ -518,4 +520,5 @@ _roundtrip('CertificateVerify-pre-tls12', _cv(T.none()), _cv(T.none()), 'Certifi
            wf=lambda ns, x: ns.f(x, 'version') < (3, 3), wf_y=lambda ns, x, y: ns.f(y, 'version') == ns.f(x, 'version'))
 _roundtrip('NextProtocol', NP, NP, 'NextProtocol', 1, _eq_fields('next_proto'))
 _roundtrip('Heartbeat', HB, HB, 'Heartbeat', 0, _eq_fields('message_type', 'payload', 'padding'))
-_roundtrip('ApplicationData', AD, AD, 'ApplicationData', 0, _eq_fields('bytes'))
+# ApplicationData.parse takes the record body as a whole (p.bytes) and does not move the index
+_roundtrip('ApplicationData', AD, AD, 'ApplicationData', 0, _eq_fields('bytes'), consumes=False)
